@@ -333,6 +333,10 @@ fn gen_sworld(base: u64, run: u64) -> SWorld {
     let mut alpha: Vec<char> = pattern.chars().filter(|c| c.is_alphanumeric() || *c == ' ').collect();
     alpha.extend(alpha.clone());
     alpha.extend(['a', 'b', 'c', '1', '2', ' ', '\n', 'é', 'ß', '𝒳', 'x', '€', '\u{2028}', 'ア']);
+    // characters from every UTF-8 lead-byte class and encoding-length edge (0-3 per world)
+    let edge = simcore::gen::edge_chars(&mut wl);
+    alpha.extend(edge.iter());
+    alpha.extend(edge.iter());
     let n = match wl.below(32) {
         0..=2 => 0,
         3..=5 => 1,
@@ -340,7 +344,10 @@ fn gen_sworld(base: u64, run: u64) -> SWorld {
         21..=30 => wl.range(5, 16),
         _ => wl.range(17, 80), // size thresholds (rescan windows, SIMD widths)
     };
-    let toks = simcore::gen::literal_tokens(&[pattern.as_str()], false);
+    let mut toks = simcore::gen::literal_tokens(&[pattern.as_str()], false);
+    if let Some(t) = simcore::gen::semantic_token(&mut wl) {
+        toks.push(t);
+    }
     let hay: String = if n >= 2 && !toks.is_empty() && wl.chance(2, 5) {
         simcore::gen::gen_hay_tokens(&mut wl, &toks, &alpha, n)
     } else {
